@@ -332,6 +332,40 @@ pub mod proofs {
         fresh_ids(false, true);
     }
 
+    /// A handler somebody else had installed before the take-over: the library's
+    /// handler stays the disposition when the last action goes away (it keeps
+    /// chaining), and a later registration does not install anything again.
+    #[kani::proof]
+    #[kani::unwind(7)]
+    pub fn c05_q_stays_installed_over_foreign_handler() {
+        reg::init_globals();
+        let by_signal: bool = kani::any();
+        unsafe {
+            K::disp[SA as usize].handler = 0x5000;
+            K::disp[SA as usize].flags = libc::SA_NODEFER;
+        }
+        let a = ok(unsafe { register(SA, || hit(1)) });
+        assert!(a.is_some(), "C05: registering a catchable signal failed");
+        assert!(installed(SA), "C05: the first registration did not install the library's handler with SA_RESTART|SA_SIGINFO");
+        if by_signal {
+            #[allow(deprecated)]
+            let r = unregister_signal(SA);
+            assert!(r, "C05: unregister_signal's result does not say whether it removed anything");
+        } else {
+            assert!(unregister(a.unwrap()), "C05: unregister of a live id returned false");
+        }
+        assert!(installed(SA), "C05: a taken-over signal lost the library's handler (with SA_RESTART|SA_SIGINFO) when its last action was removed");
+        deliver(SA);
+        assert!(unsafe { L::n } == 0, "C05: a removed action still runs");
+        let b = ok(unsafe { register(SA, || hit(2)) });
+        assert!(b.is_some(), "C05: registering a catchable signal failed");
+        assert!(installed(SA), "C05: a taken-over signal lost the library's handler (with SA_RESTART|SA_SIGINFO)");
+        deliver(SA);
+        assert!(unsafe { L::n == 1 && L::log[0] == 2 }, "C05: after re-registration a delivery does not run exactly the new action");
+        kani::cover!(by_signal, "removed with unregister_signal");
+        kani::cover!(!by_signal, "removed with unregister(id)");
+    }
+
     /// unregister of ANY (signal, u128 id) pair from a concrete three-action state
     #[kani::proof]
     #[kani::unwind(7)]
